@@ -53,6 +53,16 @@ CHECKS = {
    text="Exploration. For every branching assignment (v <= 3, capped) on every connected enumerated D-set (dim 2 size <= 6/7, dim 3 <= 4/5), for proptest-generated renumbered symbols and random symbols up to 40 chambers: |minimal_image(x)| equals the number of classes of the coarsest degree-respecting congruence (own partition refinement), is_minimal(x) iff that number equals the size, a surjective operation-commuting degree-preserving map onto the image exists (own search over all base images), the image has no proper quotient, and the oriented cover and harness-built 2-/3-sheeted covers (own voltage enumeration, validated as coverings) have isomorphic minimal images. automorphisms(x) is compared as a set with the own brute-force automorphism set, and morphism(x, y, e) with own search for every base image e, for y = x, y = the harness-built quotient, y = an unrelated symbol, and x = a renumbered cover of y.",
    note="Trusted: partition refinement, morphism search and cover construction of the harness. Connected symbols only; cover searches are budgeted (over-budget bases are counted, not failed).",
    design="§4 C04"),
+ "C07": dict(
+   technique="differential testing against an independent exhaustive classification of all branching assignments (exact rational curvature, own orbifold invariants, own D-set automorphisms); exhaustive over all small D-sets, proptest-generated D-sets above",
+   text="Exploration. For every connected complete 2D D-set of the harness's brute-force enumeration with <= 8 chambers (10 thorough) and for proptest-generated renumbered D-sets with 8-12 chambers, DSyms is run for the four geometry settings. Every item must live on exactly the given D-set, be complete with all degrees >= 3, have curvature of the requested sign (own exact rational formula), be numbered consecutively and be pairwise non-isomorphic (own canonical code). As sets modulo the D-set's automorphisms (own brute-force automorphisms, canonical = minimal pulled-back v-table) the outputs must equal the harness's classification of ALL assignments vmin <= v <= 8: euclidean = K 0; hyperbolic = K < 0 and K >= 0 after lowering any single v > vmin; spherical = K > 0, v <= 7 and own orbifold invariants (O-ORB2) on the list of 31 good orbifolds carried as data; 'all' must be the disjoint union.",
+   note="Trusted: own curvature, orbifold invariants, automorphism search. The bound 8 contains every admissible assignment (argument in DESIGN.md §4 C07); the harness asserts that no euclidean / minimally hyperbolic assignment touches 8 and reports a failed assertion as inconclusive, not as a violation.",
+   design="§4 C07"),
+ "C08": dict(
+   technique="property-based testing: exhaustive small 2D symbols (branching up to 8) + proptest-generated symbols; oracle = own orbifold invariants (boundary cycles, cones, genus), Conway-symbol parser, exact curvature; metamorphic relations under renumbering, dual and covers",
+   text="Exploration. For every branching assignment v <= 8 (capped per D-set with a deterministic spread) on every connected enumerated 2D D-set up to 6 chambers (7 thorough), proptest-generated renumbered symbols with branching up to 100 and random 2D symbols up to 60 chambers, in PartialDSym and SimpleDSym: crate curvature = own per-chamber sum = 2 x orbifold Euler characteristic of the parsed orbifold_symbol string; the parsed symbol equals the harness's own invariants (cone multiset, boundary components as corner cycles modulo rotation AND reversal obtained by walking mirror sides, handles / crosscaps from the Euler characteristic and bipartiteness); curvature and normalised symbol are unchanged by renumbering and by dual() (also compared with the own dual), curvature is multiplied by the sheet number on harness-built 2-/3-sheeted covers; is_euclidean / is_hyperbolic / is_spherical follow the sign and the tear-drop / spindle rule.",
+   note="Trusted: O-ORB2 of the harness. Connected symbols only; no m >= 3 restriction. Reversal of boundary components is allowed (two neutral mutants that reverse / re-normalise the traced boundary stay green).",
+   design="§4 C08"),
 }
 
 NOT_YET = "check not built yet in this session (work in progress; see DESIGN.md §4 for its design)"
